@@ -287,13 +287,17 @@ META = {
     ),
     "C14": dict(
         claimed=True, level="other",
-        technique="bounded-exhaustive and seeded histories against a list model with exact lengths (driver); deductive range predicate",
+        technique="bounded-exhaustive and seeded histories against a list model with exact lengths (driver); deductive contracts for one add_notes call and the range predicate",
         level_text="Decided by the driver (all value sequences to a depth bound x meters, seeded long histories, from_chords over "
-                   "nested lists, compositions) against an exact-Fraction track model. PROVED piece: Instrument.note_in_range is "
-                   "exactly 'range low <= pitch <= range high' for arbitrary range notes and note (through the proved Note "
-                   "comparison contracts).",
+                   "nested lists, compositions) against an exact-Fraction track model. PROVED pieces: one Track.add_notes call (no "
+                   "instrument; rest or container; ANY value) on a track of 0, 1 or 2 bars in ANY state: an empty track gets a "
+                   "default 4/4 bar in C, a full last bar (non-empty, < 0.001 left) is followed by a new bar with the same key "
+                   "object and meter and is itself untouched, otherwise no bar is opened; the item goes into that bar exactly "
+                   "when it fits (coded test, float-as-real) as one entry [the bar's beat, value, the item], and a refusal "
+                   "changes nothing but the (known finding) opened bar; Instrument.note_in_range is exactly 'range low <= "
+                   "pitch <= range high' for arbitrary range notes and note (through the proved Note comparison contracts).",
         level_note=TB,
-        explanation="Deductive: Instrument.note_in_range. Bounded: bounded/drivers/C14.py (166k cases quick). Repaired in /repo: "
+        explanation="Deductive: Track.add_notes (2 item kinds), Instrument.note_in_range. Bounded: bounded/drivers/C14.py (166k cases quick). Repaired in /repo: "
                     "rest with instrument, Guitar.can_play_notes, Composition.__eq__, container == rest.",
     ),
     "C15": dict(
